@@ -153,6 +153,11 @@ func (o *OracleC03) AfterBlock(c *Chain, b *BlockCtx) []*Violation {
 					obsTxBurn[ev.TxIdx] = big.NewInt(0)
 				}
 				obsTxBurn[ev.TxIdx].Add(obsTxBurn[ev.TxIdx], ev.Amount.BigInt())
+			case c.Cfg.SlashDowntimePct > 0 && ev.TxIdx < 0 && (ev.From == modAddr("bonded_tokens_pool") || ev.From == modAddr("not_bonded_tokens_pool")):
+				// this run switched the SDK's downtime slashing on (outside the statement's documented events, see
+				// DESIGN section 4 assumption): the burn is accounted for, not judged
+				disputeBurn.Add(disputeBurn, ev.Amount.BigInt())
+				o.count("sdk_slash_burns(not judged)")
 			case ev.From == disputeMod && (ev.Mode == "BeginBlock" || c.txHasKind(b, ev.TxIdx, "withdraw_fee_refund")):
 				disputeBurn.Add(disputeBurn, ev.Amount.BigInt())
 				o.count("dispute_burn_events")
